@@ -311,3 +311,42 @@ PLANS['C14'] = {
     'note': 'trusted: Python reference codecs, harness oracle for the normalisations',
     'technique': 'runtime round-trip oracle + independent spec codec over recorded blobs (both directions)',
 }
+
+
+def _c13(m, tier, seed, rundir, extra):
+    import sys
+    sys.path.insert(0, os.path.join(core.VERIF, 'lib'))
+    from monitors import c13
+    profiles = [('release', None)] if tier == 'quick' else [('release', None), ('dbg', core.vh('dbg'))]
+    corpus = os.path.join(rundir, 'structured.jsonl')
+    c13.make(corpus, seed)
+    for pname, worker in profiles:
+        wargs = ['--profile-name', pname] + (['--worker', worker] if worker else [])
+        sub = os.path.join(rundir, pname)
+        n_mut = int(extra.get('count', 8000 if tier == 'quick' else 400000))
+        m.add_results(core.run_sharded('c13', ['--mode', 'mutate', '--seed', seed, '--count', n_mut] + wargs, SH, os.path.join(sub, 'mutate'), timeout=7200), f'c13 mutate {pname}')
+        m.add_results(core.run_sharded('c13', ['--mode', 'truncate', '--seed', seed, '--files', 32 if tier == 'quick' else 480] + wargs, SH, os.path.join(sub, 'truncate'), timeout=7200), f'c13 truncate {pname}')
+        m.add_results(core.run_sharded('c13', ['--mode', 'sink', '--seed', seed, '--files', 16 if tier == 'quick' else 160] + wargs, SH, os.path.join(sub, 'sink'), timeout=7200), f'c13 sink {pname}')
+        m.add_results(core.run_sharded('c13', ['--mode', 'corpus', '--in', corpus] + wargs, 4, os.path.join(sub, 'corpus')), f'c13 corpus {pname}')
+    m.extra['build_profiles'] = [p for p, _ in profiles]
+    m.extra['exhaustive_parts'] = 'truncation at EVERY byte offset of each base file; sink failure at EVERY output offset (error, zero-length write) and every 16th offset (interrupted+short writes)'
+
+
+PLANS['C13'] = {
+    'level': 'fault_enumeration',
+    'rule': ('a supervisor drives a worker process one case at a time (call/return over a pipe) so aborts, stack overflows and refused >1 GiB allocations are attributed to the open case; '
+             'inputs: random bytes (with/without valid magic), valid binary (none/lz4/zstd), XML and attribute files mutated by bit flips, byte/u32 substitutions, off-by-one on length fields, '
+             'insert/delete/duplicate/splice, header / chunk-header / leading-count edits and chunk reordering; XML bombs (nesting 1e2..1e5, entity expansion, huge numbers/attributes, invalid UTF-8); '
+             'a structure-aware hostile corpus (~75 single-fault files built with the independent encoder primitives); '
+             'fault enumeration: every strict prefix of each valid base file must be an error; every mutated/valid input is re-read through 1-byte, short-read and Interrupted readers and must give the same result; '
+             'a sink failing at every output offset must make the writers return Err (or identical bytes when only interrupted). '
+             'Oracles: outcome in {Ok, Err}, largest single allocation <= max(16 MiB, 1024 x input), no watchdog timeout; non-trivial = every input; distinct = hash of the input'),
+    'floor': {'quick': 20000, 'thorough': 400000},
+    'profiles': {'quick': [], 'thorough': ['dbg']},
+    'assumptions': ['the worker runs each case on an 8 MiB stack', 'CPU/hang: 30 s wall-clock watchdog per case whose firing is reported as unconfirmed (inconclusive note), not as a violation'],
+    'run': _c13,
+    'claim': ('held on N inputs / fault points: no panic, abort, stack overflow, oversized allocation or hang; all strict prefixes rejected; results independent of read partitioning; '
+              'all injected sink failures surfaced (thorough: release and overflow-checking builds)'),
+    'note': 'trusted: supervisor/worker protocol, counting allocator, mutation engine; the XML nesting-depth stack overflow is a listed known finding',
+    'technique': 'fault injection and mutation under outcome/allocation/progress monitors in a supervised worker process',
+}
